@@ -151,6 +151,10 @@ func ParseExpr(src string) (e *Expr, err error) {
 func (p *parser) expr() *Expr {
 	if p.isID("forall") || p.isID("exists") {
 		op := p.next().s
+		if p.isOp("!") { // forall! / exists!: expanded over literal bounds
+			p.next()
+			op += "!"
+		}
 		v := p.next()
 		if v.kind != "id" {
 			panic("quantifier variable expected in " + p.src)
@@ -382,6 +386,7 @@ type LoopSpec struct {
 	Invariants []*Clause
 	Decreases  *Clause
 	Opts       map[string]string
+	Uses       []*Clause
 }
 
 type AssertSpec struct {
@@ -412,6 +417,7 @@ type Lemma struct {
 	By       string // smt | induction <var> | lean <thm> | axiom
 	Line     string
 	Pats     []*Expr
+	Uses     []*Clause
 }
 
 type FuncSpec struct {
@@ -432,6 +438,7 @@ type FuncSpec struct {
 	Line     string
 	Pure     bool
 	Decreases *Clause
+	Uses     []*Clause
 }
 
 type SpecFile struct {
@@ -446,7 +453,7 @@ var clauseKeywords = map[string]bool{
 	"func": true, "requires": true, "ensures": true, "modifies": true, "panics": true,
 	"loop": true, "invariant": true, "decreases": true, "assert": true, "opt": true,
 	"spec": true, "pred": true, "lemma": true, "by": true, "extern": true, "ghost": true,
-	"pattern": true, "opaque": true, "end": true,
+	"pattern": true, "opaque": true, "end": true, "use": true,
 }
 
 type rawLine struct {
@@ -757,6 +764,17 @@ func LoadSpecFile(path, pkg string) (sf *SpecFile, err error) {
 			at := strings.TrimSpace(r[3:i])
 			c := must(mkClause("assert", r[i+1:], l.pos))
 			cur.Asserts = append(cur.Asserts, &AssertSpec{At: at, C: c})
+		case "use":
+			c := must(mkClause("use", l.rest, l.pos))
+			if curLemma != nil {
+				curLemma.Uses = append(curLemma.Uses, c)
+			} else if curLoop != nil {
+				curLoop.Uses = append(curLoop.Uses, c)
+			} else if cur != nil {
+				cur.Uses = append(cur.Uses, c)
+			} else {
+				panic(l.pos + ": use outside func/loop")
+			}
 		case "ghost":
 			cur.Ghost = append(cur.Ghost, &Clause{Kind: "ghost", Text: l.rest, Line: l.pos})
 		case "opt":
